@@ -12,7 +12,8 @@ import time
 from pathlib import Path
 
 VERIF = Path(__file__).resolve().parent.parent
-EVIDENCE = VERIF / "evidence"
+# runs against a scratch copy of the repository (VERIF_REPO=<dir>, used to try seeded changes) must not overwrite the evidence of /repo
+EVIDENCE = VERIF / ("evidence" if os.environ.get("VERIF_REPO", "/repo").rstrip("/") == "/repo" else "_scratch_evidence")
 REPLAYS = VERIF / "replays"
 KNOWN = VERIF / "known_findings.json"
 
